@@ -32,7 +32,6 @@ import (
 	"github.com/opencontainers/go-digest"
 	specs "github.com/opencontainers/image-spec/specs-go"
 	ocispec "github.com/opencontainers/image-spec/specs-go/v1"
-	"oras.land/oras-go/v2/content"
 	"oras.land/oras-go/v2/errdef"
 	"oras.land/oras-go/v2/internal/container/set"
 	"oras.land/oras-go/v2/internal/descriptor"
@@ -208,7 +207,9 @@ func (s *Store) delete(ctx context.Context, target ocispec.Descriptor) ([]ocispe
 	resolvers := s.tagResolver.Map()
 	untagged := false
 	for reference, desc := range resolvers {
-		if content.Equal(desc, target) {
+		// blobs are stored by digest only: every reference to this digest
+		// loses its content, whatever media type it was tagged with
+		if desc.Digest == target.Digest {
 			s.tagResolver.Untag(reference)
 			untagged = true
 		}
